@@ -1009,6 +1009,27 @@ func (w *World) execCmd(cmd Cmd) {
 		kv["list"] = listing
 	}
 	w.rec.Emit("cmd_ret", kv)
+	if w.plan.Family == "own" || w.plan.Family == "duelown" {
+		// what `list` shows right now: at every moment no host/path pair may appear under two services (C05)
+		type ls struct {
+			Name  string   `json:"name"`
+			Hosts []string `json:"hosts"`
+			Paths []string `json:"paths"`
+		}
+		var out []ls
+		for name, d := range w.router.ListActiveServices() {
+			hosts := strings.Split(d.Host, ",")
+			if d.Host == "*" {
+				hosts = []string{""}
+			}
+			out = append(out, ls{name, hosts, strings.Split(d.Path, ",")})
+		}
+		sort.Slice(out, func(i, j int) bool { return out[i].Name < out[j].Name })
+		if out == nil {
+			out = []ls{}
+		}
+		w.rec.Emit("list_obs", KV{"c": cmd.ID, "svcs": out})
+	}
 	if w.plan.Family == "own" {
 		// which targets have a probe loop right now (for the design model of the service table, spec/Own.tla)
 		w.mu.Lock()
